@@ -157,7 +157,11 @@ impl StreamDecoder {
     /// }
     /// ```
     pub fn decode(&mut self, buffer: &mut Buffer) -> Result<Option<RecordBatch>, ArrowError> {
-        while !buffer.is_empty() {
+        // A message without a body (e.g. a schema, or a record batch without rows or columns)
+        // is complete once its flatbuffer has been read: it must not wait for further input,
+        // which may never come if the stream is ended by closing it rather than by an
+        // end-of-stream marker
+        while !buffer.is_empty() || self.has_complete_message() {
             match &mut self.state {
                 DecoderState::Header {
                     buf,
@@ -291,6 +295,16 @@ impl StreamDecoder {
             }
         }
         Ok(None)
+    }
+
+    /// Returns true if a message flatbuffer has been read whose body is empty
+    fn has_complete_message(&self) -> bool {
+        match &self.state {
+            DecoderState::Body { message } => {
+                self.buf.is_empty() && message.as_ref().bodyLength() == 0
+            }
+            _ => false,
+        }
     }
 
     /// Signal the end of stream
